@@ -110,6 +110,9 @@ def rel_twoway(I, st, finder, n, fwd, out, guard=()):
     what = 'period' if shift.variant == 0 else 'shift'
     out.append(Fact(g1, ('le', C(1) - x), f'{tag}: {what} >= 1 for a non-empty needle'))
     out.append(Fact(guard if shift.variant == 1 else g1, le(x, n), f'{tag}: {what} <= needle.len()'))
+    if shift.variant == 1:
+        # (the large-period searcher moves by at least half the needle after a failed left part: the linear-work bound)
+        out.append(Fact(guard, ('le', n - x * 2), f'{tag}: 2 * shift >= needle.len() (shift = max(critical_pos, len - critical_pos))'))
 
 
 def rel_pair(I, st, pair, n, out, guard=()):
@@ -187,6 +190,7 @@ def rel_searcher(I, st, s, n, out):
             rel_twoway(I, st, val.fields[0], n, True, out)
             rel_prefilter(I, st, val.fields[1], n, out)
         else:
+            out.append(Fact((), ('le', n - 32), f'I-MM: {fname} (memcmp-confirming vector) searcher => needle.len() <= 32'))
             rel_packed(I, st, val, n, out)
 
 
@@ -616,6 +620,7 @@ def root_states(I, inst, st, args):
                 errs.append(str(e))
         for e in errs:
             I.note(f'REL not assumed at root {inst.path}: {e}')
+        record_iter_entry(I, inst, s, a)
         dom = [f for f in facts if f.domain]
         if dom and I.opts.get('mm_domain') == 'out':
             # outside the documented domain (one analysis per violated condition)
@@ -624,11 +629,18 @@ def root_states(I, inst, st, args):
                 s3 = s.copy()
                 add_atom(s3, neg(d.atom))
                 for s2 in assume_facts(s3, rest):
+                    s2.ghost['root_args'] = tuple(a)
                     out.append((s2, a))
             continue
         for s2 in assume_facts(s, facts):
+            s2.ghost['root_args'] = tuple(a)
             out.append((s2, a))
     return out
+
+
+def _args_of(st, args):
+    """the argument values of the alternative this outcome belongs to (enums expanded)"""
+    return list(st.ghost.get('root_args', args))
 
 
 def has_domain(inst):
@@ -725,10 +737,45 @@ def e3_summary(I, st, callee, args, ret):
         st.store.add_eq(b.e - nb.e)
 
 
+PAIRPRE_CALLEE = re.compile(r'^arch::' + r'(all|x86_64::sse2|x86_64::avx2|aarch64::neon|wasm32::simd128)' + r'::packedpair::Finder::find_prefilter$')
+
+
+def pairpre_summary(I, st, callee, args, ret):
+    """candidate-coverage summary of a cut packed-pair prefilter (what C11 proves at its root), usable when the
+    caller's pair specification talks about the same pair: None => every position where the needle fits was
+    rejected; Some(c) => every position before c was, and both pair bytes are at c"""
+    ps, sr = st.ghost.get('pairspec'), st.ghost.get('search')
+    if not ps or not sr or not PAIRPRE_CALLEE.match(callee.path):
+        return
+    from . import e3
+    f = follow(I, st, args[0])
+    hs = args[1]
+    prs = []
+    _find_pairs(I, f, prs)
+    if not (prs and isinstance(hs, SliceV) and isinstance(ret, AdtV) and ret.variant is not None and hs.ptr.r == sr['region']):
+        return
+    s = st.store
+    if not all(isinstance(p.fields[k], IntV) for p in prs for k in (0, 1)):
+        return
+    if not all(s.entails_eq(p.fields[0].e - ps['i1']) and s.entails_eq(p.fields[1].e - ps['i2']) for p in prs):
+        return
+    a = hs.ptr.off
+    if ret.variant == 0:
+        e3.reject_batch(I, st, [(ps['sym'], hs.ptr.r, a, a + hs.n - ps['n'] + 1)])
+    elif isinstance(ret.fields[0], IntV):
+        c = ret.fields[0].e
+        e3.reject_batch(I, st, [(ps['sym'], hs.ptr.r, a, a + c)])
+        for idx, b in ((ps['i1'], ps['b1']), (ps['i2'], ps['b2'])):
+            x = I.byte_at(st, PtrV(hs.ptr.r, a + c + idx))
+            s.add_eq(x.e - b)
+
+
 def _assume_post1(I, fr, st, callee, args, ret):
     outs = []
     for s, r in expand(I, st, ret):
         e3_summary(I, s, callee, args, r)
+        pairpre_summary(I, s, callee, args, r)
+        verified_summary(I, s, callee, args, r)
         facts, errs = [], []
         auto_rel(I, s, r, facts, errs)
         row = lookup(POST_TABLE, callee.path)
@@ -921,7 +968,73 @@ def _spec_prefilter_ctor(needle_idx, finder_idx):
     return f
 
 
+def _same_slice(st, a, b):
+    return (isinstance(a, SliceV) and isinstance(b, SliceV) and a.ptr.r == b.ptr.r
+            and st.store.entails_eq(a.ptr.off - b.ptr.off) and st.store.entails_eq(a.n - b.n))
+
+
+def _same_opt(st, a, b):
+    if not (isinstance(a, AdtV) and isinstance(b, AdtV)) or a.variant is None or a.variant != b.variant:
+        return False
+    return a.variant == 0 or (isinstance(a.fields[0], IntV) and isinstance(b.fields[0], IntV) and st.store.entails_eq(a.fields[0].e - b.fields[0].e))
+
+
+def _spec_iter_into_owned(I, st, args, ret):
+    """into_owned of an iterator changes only who owns the needle: same haystack window, same position"""
+    a = args[0]
+    p = tpath(I, a)
+    if p != tpath(I, ret) or p not in (FIND_ITER, FIND_REV_ITER):
+        return [('iterator values tracked', False, f'{a} -> {ret}')]
+    out = [('into_owned keeps the haystack', _same_slice(st, a.fields[0], ret.fields[0]), '')]
+    if p == FIND_ITER:
+        ok = isinstance(a.fields[3], IntV) and isinstance(ret.fields[3], IntV) and st.store.entails_eq(a.fields[3].e - ret.fields[3].e)
+        nl = (cow_len(I, st, a.fields[2].fields[0]), cow_len(I, st, ret.fields[2].fields[0]))
+    else:
+        ok = _same_opt(st, a.fields[2], ret.fields[2])
+        nl = (cow_len(I, st, a.fields[1].fields[0]), cow_len(I, st, ret.fields[1].fields[0]))
+    out.append(('into_owned keeps the position', ok, '' if ok else f'{a} -> {ret}'))
+    okn = nl[0] is not None and nl[1] is not None and st.store.entails_eq(nl[0] - nl[1])
+    out.append(('into_owned keeps the needle length', okn, ''))
+    return out
+
+
+def _spec_iter_new(hidx, rev):
+    def f(I, st, args, ret):
+        hs = args[hidx]
+        p = tpath(I, ret)
+        if p not in (FIND_ITER, FIND_REV_ITER) or not isinstance(hs, SliceV):
+            return [('iterator value tracked', False, f'{ret}')]
+        out = [('the iterator searches the haystack given', _same_slice(st, hs, ret.fields[0]), '')]
+        if not rev:
+            ok = isinstance(ret.fields[3], IntV) and st.store.entails_eq(ret.fields[3].e)
+            out.append(('a new forward iterator starts at pos = 0', ok, '' if ok else f'{ret.fields[3]}'))
+        else:
+            pos = ret.fields[2]
+            ok = isinstance(pos, AdtV) and pos.variant == 1 and isinstance(pos.fields[0], IntV) and st.store.entails_eq(pos.fields[0].e - hs.n)
+            out.append(('a new reverse iterator starts at pos = Some(haystack.len())', ok, '' if ok else f'{pos}'))
+        return out
+    return f
+
+
+def _spec_shiftor_new(I, st, args, ret):
+    n = args[0].n if isinstance(args[0], SliceV) else None
+    if n is None or not isinstance(ret, AdtV) or ret.variant is None:
+        return [('result tracked', False, '')]
+    if ret.variant == 0:
+        ok = _ent(st, ('le', C(16) - n))
+        return [('shiftor::Finder::new: None => needle.len() > 15', ok, '')]
+    f = ret.fields[0]
+    ok = isinstance(f, AdtV) and len(f.fields) == 2 and isinstance(f.fields[1], IntV) and _ent(st, ('eq', f.fields[1].e - n)) and _ent(st, ('le', n - 15))
+    return [('shiftor::Finder::new: Some(f) => needle.len() <= 15 and f remembers that length', ok, '' if ok else f'{f}')]
+
+
 SPEC_TABLE = [
+    (re.compile(r"^arch::all::shiftor::Finder::new$"), _spec_shiftor_new),
+    (re.compile(r"^memmem::(FindIter|FindRevIter)::<.*>::into_owned$"), _spec_iter_into_owned),
+    (re.compile(r"^memmem::find_iter(::<.*>)?$"), _spec_iter_new(0, False)),
+    (re.compile(r"^memmem::rfind_iter(::<.*>)?$"), _spec_iter_new(0, True)),
+    (re.compile(r"^memmem::Finder::<.*>::find_iter$"), _spec_iter_new(1, False)),
+    (re.compile(r"^memmem::FinderRev::<.*>::rfind_iter$"), _spec_iter_new(1, True)),
     (re.compile(r'^memmem::searcher::Prefilter::(sse2|avx2|neon|simd128)$'), _spec_prefilter_ctor(1, 0)),
     (re.compile(r'^memmem::searcher::Prefilter::fallback(::<.*>)?$'), _spec_prefilter_ctor(2, None)),
     (re.compile(r'^arch::all::packedpair::Pair::with_indices$'), _spec_indices),
@@ -945,8 +1058,338 @@ def check_spec_post(I, inst, results, args):
         if isinstance(ret, AdtV) and ret.variant is not None:
             seen_variants.add(ret.variant)
         try:
-            items = row[1](I, st, args, ret)
+            items = row[1](I, st, _args_of(st, args), ret)
         except (AttributeError, TypeError, IndexError) as e:
             items = [('values tracked', False, f'{type(e).__name__}: {e}')]
         for label, ok, det in items:
             I.ob('SPEC-POST', fr, inst.loc, label, ok, det)
+
+
+# ------------------------------------------------------------------ Two-Way small period: the shift memory
+# find_small_imp / rfind_small_imp remember in `shift` how much of the needle is already known to match at the
+# NEXT position.  That knowledge exists only right after moving by exactly `period` from the position at which
+# the comparisons were made (the needle overlaps itself there), and covers at most needle.len() - period bytes.
+# Per loop iteration (transfer obligation on every back edge, `step` = size of the LAST move of `pos` on the path):
+#   forward:  shift' == 0             or  (step == +period  and  shift' + period <= needle.len())
+#   reverse:  shift' == needle.len()  or  (step == -period  and  shift' >= period)
+# Every violation makes the searcher skip comparisons of bytes it knows nothing about.
+MEMO_LOOPS = [
+    (re.compile(r'^arch::all::twoway::Finder::find_small_imp$'), 'fwd'),
+    (re.compile(r'^arch::all::twoway::FinderRev::rfind_small_imp$'), 'rev'),
+]
+
+
+def memo_pos_local(inst):
+    if not lookup(MEMO_LOOPS, inst.path):
+        return None
+    return _named_locals(inst).get('pos')
+
+
+def _named_locals(inst):
+    out = {}
+    for d in inst.j.get('debug', []):
+        if not d['p']['pr']:
+            out.setdefault(d['name'], d['p']['l'])
+    return out
+
+
+def loop_transfer(I, fr, h, body, H, backs):
+    row = lookup(MEMO_LOOPS, fr.inst.path)
+    if not row:
+        return
+    mode = row[1]
+    names = _named_locals(fr.inst)
+    need = ('pos', 'shift', 'period', 'needle')
+    if any(k not in names for k in need):
+        I.ob('MEMO', fr, fr.inst.loc, 'shift memory: variables pos / shift / period / needle identified', False,
+             f"debug names found: {sorted(names)}")
+        return
+    from .loops import syntactic_modified
+    if names['pos'] not in syntactic_modified(I, fr, body, H):
+        return                                  # an inner comparison loop: neither pos nor shift changes
+    hl = H.frames.get(fr.fid, {})
+    posH, per, nd = hl.get(names['pos']), hl.get(names['period']), hl.get(names['needle'])
+    if not (isinstance(posH, IntV) and isinstance(per, IntV) and isinstance(nd, SliceV)):
+        I.ob('MEMO', fr, fr.inst.loc, 'shift memory: loop state tracked', False, 'pos / period / needle not tracked at the loop head')
+        return
+    label = ('shift memory (forward): after an iteration shift == 0, or the last move was exactly +period and shift + period <= needle.len()'
+             if mode == 'fwd' else
+             'shift memory (reverse): after an iteration shift == needle.len(), or the last move was exactly -period and shift >= period')
+    for B in backs:
+        if not (B.store.is_sat() and B.store.check_sat()):
+            continue
+        bl = B.frames.get(fr.fid, {})
+        posB, shB = bl.get(names['pos']), bl.get(names['shift'])
+        if not (isinstance(posB, IntV) and isinstance(shB, IntV)):
+            I.ob('MEMO', fr, fr.inst.loc, label, False, 'pos / shift not tracked on a back edge')
+            continue
+        s = B.store
+        ms = B.ghost.get('memo_step')
+        step = ms[1] if ms and ms[0] == fr.fid else None
+        if mode == 'fwd':
+            ok = s.entails_eq(shB.e) or (step is not None and s.entails_eq(step - per.e) and s.entails_le(shB.e + per.e - nd.n))
+        else:
+            ok = s.entails_eq(shB.e - nd.n) or (step is not None and s.entails_eq(step + per.e) and s.entails_le(per.e - shB.e))
+        I.ob('MEMO', fr, fr.inst.loc, label, ok,
+             '' if ok else f"back edge with last move of pos = {s.nf(step) if step is not None else '?'}, shift' = {s.nf(shB.e)}, period = {s.nf(per.e)}, needle.len() = {s.nf(nd.n)}")
+
+
+# ------------------------------------------------------------------ "the returned offset was verified"
+VERIFIED_ROOTS = [
+    (re.compile(r'^arch::all::rabinkarp::(Finder::find|FinderRev::rfind)$'), None),
+    (re.compile(r'^arch::(x86_64::sse2|x86_64::avx2|aarch64::neon|wasm32::simd128)::packedpair::Finder::find$'), None),
+    (re.compile(r'^arch::all::twoway::(Finder::find|FinderRev::rfind)$'), 'large-only'),
+]
+MM_VERIFIED = re.compile(r"^memmem::Finder::<'.*>::find$|^memmem::FinderRev::<'.*>::rfind(::<.*>)?$")
+
+
+def _tw_is_large(I, st, finder):
+    try:
+        return finder.fields[0].fields[2].variant == 1
+    except (AttributeError, IndexError, TypeError):
+        return False
+
+
+def verified_summary(I, st, callee, args, ret):
+    """a cut building-block search returned Some(i): what its own root proves (POST-VERIFIED) is recorded in
+    the EQ ghost of the caller -- for Two-Way only when the finder is a large-period one"""
+    row = lookup(VERIFIED_ROOTS, callee.path)
+    if not row or len(args) < 3 or not (isinstance(args[1], SliceV) and isinstance(args[2], SliceV)):
+        return
+    if not (isinstance(ret, AdtV) and ret.variant == 1 and isinstance(ret.fields[0], IntV)):
+        return
+    if row[1] == 'large-only' and not _tw_is_large(I, st, follow(I, st, args[0])):
+        return
+    from . import eqg
+    hs, nd = args[1], args[2]
+    eqg.on_equal(I, st, nd.ptr.r, nd.ptr.off, hs.ptr.r, hs.ptr.off + ret.fields[0].e, nd.n)
+
+
+def _searcher_kind_name(I, st, finder):
+    """('two_way', is_large) etc. for a memmem::Finder / FinderRev value"""
+    try:
+        srch = finder.fields[1]
+        if tpath(I, srch) == SEARCHER:
+            kind = srch.fields[1]
+            name = I.P.types[kind.tid]['variants'][0]['fields'][kind.active]['name']
+            val = kind.val
+            if name == 'two_way':
+                return name, _tw_is_large(I, st, val)
+            if name == 'two_way_with_prefilter':
+                return name, _tw_is_large(I, st, val.fields[0])
+            return name, True
+        kind = srch.fields[0]
+        if kind.variant == 2:
+            return 'two_way', _tw_is_large(I, st, kind.fields[0])
+        return ('empty', 'one_byte')[kind.variant], True
+    except (AttributeError, IndexError, TypeError, KeyError):
+        return None, False
+
+
+def check_verified_mm(I, inst, results, args):
+    """POST-VERIFIED for the meta searcher: whatever strategy answered, Some(i) was verified at offset i of the
+    haystack GIVEN TO THIS CALL (a sub-search must be rebased).  Not decided for empty / one-byte needles
+    (nothing to compare / C01) and for small-period Two-Way."""
+    if not MM_VERIFIED.match(inst.path) or len(args) < 2 or not isinstance(args[1], SliceV):
+        return
+    from . import eqg
+    fr = _Fr(inst)
+    hs = args[1]
+    for st, ret in results:
+        if not (st.store.is_sat() and st.store.check_sat()):
+            continue
+        if isinstance(ret, AdtV) and ret.variant == 0:
+            f0 = follow(I, st, args[0])
+            if _searcher_kind_name(I, st, f0)[0] == 'empty':
+                I.ob('SPEC-POST', fr, inst.loc, 'the empty needle always matches', False, 'None returned by the empty-needle searcher')
+            continue
+        if not (isinstance(ret, AdtV) and ret.variant == 1 and isinstance(ret.fields[0], IntV)):
+            continue
+        f = follow(I, st, args[0])
+        name, decidable = _searcher_kind_name(I, st, f)
+        if name == 'empty':
+            want = C(0) if 'Rev' not in inst.path else hs.n
+            ok = st.store.entails_eq(ret.fields[0].e - want)
+            I.ob('SPEC-POST', fr, inst.loc, 'the empty needle matches at offset 0 (forward) / haystack.len() (reverse)', ok,
+                 '' if ok else f'returned {st.store.nf(ret.fields[0].e)}')
+            continue
+        if name in (None, 'one_byte') or not decidable:
+            continue
+        nd = follow(I, st, f.fields[0])
+        for _ in range(6):
+            if isinstance(nd, AdtV) and nd.fields:
+                nd = follow(I, st, nd.fields[0])
+        if not isinstance(nd, SliceV):
+            I.ob('POST-VERIFIED', fr, inst.loc, f'[{name}] needle of the finder tracked', False, '')
+            continue
+        i = ret.fields[0].e
+        ok = eqg.covered(st, nd.ptr.r, nd.ptr.off, hs.ptr.r, hs.ptr.off + i, nd.n)
+        I.ob('POST-VERIFIED', fr, inst.loc, f'[{name}] Some(i) => the needle was compared equal with haystack[i..i+needle.len()] of THIS call', ok,
+             '' if ok else f"compared-equal interval {eqg.get(st, *sorted((nd.ptr.r, hs.ptr.r)))} does not cover the needle at offset {st.store.nf(i)}")
+
+
+def check_verified(I, inst, results, args):
+    check_verified_mm(I, inst, results, args)
+    _check_verified_leaf(I, inst, results, args)
+
+
+def _check_verified_leaf(I, inst, results, args):
+    """POST-VERIFIED: Some(i) is returned only after every byte of the needle was compared equal with
+    haystack[i..i+needle.len()] (EQ ghost).  For Two-Way this is decidable for the large-period searcher only:
+    the small-period one skips the bytes its shift memory vouches for (see MEMO)."""
+    row = lookup(VERIFIED_ROOTS, inst.path)
+    if not row or len(args) < 3 or not (isinstance(args[1], SliceV) and isinstance(args[2], SliceV)):
+        return
+    from . import eqg
+    fr = _Fr(inst)
+    hs, nd = args[1], args[2]
+    n_some = 0
+    for st, ret in results:
+        if not (st.store.is_sat() and st.store.check_sat()):
+            continue
+        if not (isinstance(ret, AdtV) and ret.variant == 1 and isinstance(ret.fields[0], IntV)):
+            continue
+        if row[1] == 'large-only' and not _tw_is_large(I, st, follow(I, st, args[0])):
+            continue
+        if st.store.entails_le(nd.n):
+            continue            # empty needle: nothing to compare
+        n_some += 1
+        i = ret.fields[0].e
+        ok = eqg.covered(st, nd.ptr.r, nd.ptr.off, hs.ptr.r, hs.ptr.off + i, nd.n)
+        I.ob('POST-VERIFIED', fr, inst.loc, 'Some(i) => needle[..] was compared equal with haystack[i..i+needle.len()]', ok,
+             '' if ok else f"compared-equal interval {eqg.get(st, *sorted((nd.ptr.r, hs.ptr.r)))} (either orientation) does not cover the needle at offset {st.store.nf(i)}")
+    I.ob('POST-VERIFIED', fr, inst.loc, 'a match path exists (non-vacuous)', n_some > 0, f'{n_some} Some(..) path(s) examined')
+
+
+# ------------------------------------------------------------------ C08: substring iterators (transfer obligations)
+FIND_ITER = 'memmem::FindIter'
+FIND_REV_ITER = 'memmem::FindRevIter'
+IT_ROOTS = re.compile(r"^<memmem::(FindIter|FindRevIter)<.*> as core::iter::Iterator>::(next|size_hint)$")
+
+
+def record_iter_entry(I, inst, st, args):
+    """remember the iterator's window at entry (for the transfer obligations at exit)"""
+    if not IT_ROOTS.match(inst.path) or not args:
+        return
+    it = follow(I, st, args[0])
+    p = tpath(I, it)
+    if p == FIND_ITER and len(it.fields) == 4 and isinstance(it.fields[0], SliceV) and isinstance(it.fields[3], IntV):
+        st.ghost['it_old'] = ('fwd', it.fields[0], it.fields[3].e, cow_len(I, st, it.fields[2].fields[0]))
+    elif p == FIND_REV_ITER and len(it.fields) == 3 and isinstance(it.fields[0], SliceV) and isinstance(it.fields[2], AdtV):
+        pos = it.fields[2]
+        pv = pos.fields[0].e if pos.variant == 1 and isinstance(pos.fields[0], IntV) else None
+        st.ghost['it_old'] = ('rev', it.fields[0], (pos.variant, pv), cow_len(I, st, it.fields[1].fields[0]))
+
+
+def check_iter_post(I, inst, results, args):
+    if not IT_ROOTS.match(inst.path) or not args:
+        return
+    fr = _Fr(inst)
+    meth = inst.path.rsplit('::', 1)[-1]
+    n_checked = 0
+    for st, ret in results:
+        if not (st.store.is_sat() and st.store.check_sat()):
+            continue
+        old = st.ghost.get('it_old')
+        it = follow(I, st, args[0])
+        if old is None or not isinstance(it, AdtV):
+            I.ob('IT-TRANSFER', fr, inst.loc, f'{meth}: iterator state tracked', False, 'iterator value not tracked')
+            continue
+        s = st.store
+        mode, hs, opos, n = old
+        if n is None:
+            I.ob('IT-TRANSFER', fr, inst.loc, f'{meth}: needle length tracked', False, '')
+            continue
+        n_checked += 1
+        if meth == 'size_hint' and mode == 'fwd':
+            lo, hi = ret.fields if isinstance(ret, AdtV) and ret.fields and len(ret.fields) == 2 else (None, None)
+            if not (isinstance(lo, IntV) and isinstance(hi, AdtV) and hi.variant is not None):
+                I.ob('SIZE-HINT', fr, inst.loc, 'size_hint: result tracked', False, f'{ret}')
+                continue
+            hv = hi.fields[0].e if hi.variant == 1 and isinstance(hi.fields[0], IntV) else None
+            rem = hs.n - opos          # bytes still to be searched
+            if s.entails_le(rem + 1):                                   # pos > len: exhausted
+                ok = s.entails_eq(lo.e) and hv is not None and s.entails_eq(hv)
+                I.ob('SIZE-HINT', fr, inst.loc, 'size_hint: exhausted iterator (pos > haystack.len()) => (0, Some(0))', ok, '' if ok else f'{ret}')
+            elif s.entails_le(-rem) and s.entails_eq(n):                # empty needle: exactly len - pos + 1 matches to come
+                ok = s.entails_eq(lo.e - (rem + 1)) and hv is not None and s.entails_eq(hv - (rem + 1))
+                I.ob('SIZE-HINT', fr, inst.loc, 'size_hint: empty needle => both bounds are haystack.len() - pos + 1', ok, '' if ok else f'{ret}')
+            elif s.entails_le(-rem) and s.entails_le(C(1) - n):         # at most floor(rem / n) non-overlapping matches
+                dv = st.ghost.get('divs', {})
+                ok_lo = s.entails_eq(lo.e)
+                ok_hi = hi.variant == 0
+                if hv is not None:
+                    hn = s.nf(hv)
+                    if len(hn.t) == 1 and hn.k == 0 and hn.t[0][1] == 1 and hn.t[0][0] in dv:
+                        a, b = dv[hn.t[0][0]]
+                        ok_hi = s.entails_eq(a - rem) and s.entails_eq(b - n)
+                    cn = s.const_value(n)
+                    if not ok_hi and cn:
+                        ok_hi = s.entails_le((rem - (cn - 1)) - hv * cn)       # hv >= floor(rem / cn)
+                I.ob('SIZE-HINT', fr, inst.loc, 'size_hint: lower bound 0, upper bound floor((haystack.len() - pos) / needle.len()) (or none)', ok_lo and ok_hi,
+                     '' if ok_lo and ok_hi else f'{ret}')
+            else:
+                I.ob('SIZE-HINT', fr, inst.loc, 'size_hint: case determined', False, f'cannot place pos = {s.nf(opos)} relative to len / needle length {s.nf(n)}')
+            continue
+        if meth != 'next':
+            continue
+        if not (isinstance(ret, AdtV) and ret.variant is not None):
+            I.ob('IT-TRANSFER', fr, inst.loc, 'next: result is a definite Some/None', False, f'{ret}')
+            continue
+        if mode == 'fwd':
+            npos = it.fields[3]
+            if not isinstance(npos, IntV):
+                I.ob('IT-TRANSFER', fr, inst.loc, 'next: pos tracked at exit', False, '')
+                continue
+            if ret.variant == 0:
+                ok = s.entails_eq(npos.e - opos)
+                I.ob('IT-TRANSFER', fr, inst.loc, 'next: None leaves pos unchanged (fused)', ok, '' if ok else f"pos' = {s.nf(npos.e)}, pos = {s.nf(opos)}")
+            else:
+                x = ret.fields[0]
+                if not isinstance(x, IntV):
+                    I.ob('IT-TRANSFER', fr, inst.loc, 'next: yielded offset tracked', False, '')
+                    continue
+                ok1 = s.entails_le(opos - x.e) and s.entails_le(x.e + n - hs.n)
+                I.ob('IT-TRANSFER', fr, inst.loc, 'next: Some(i) => pos <= i and i + needle.len() <= haystack.len()', ok1,
+                     '' if ok1 else f"i = {s.nf(x.e)}, pos = {s.nf(opos)}")
+                if s.entails_le(C(1) - n):
+                    ok2 = s.entails_eq(npos.e - (x.e + n))
+                elif s.entails_eq(n):
+                    ok2 = s.entails_eq(npos.e - (x.e + 1))
+                else:
+                    ok2 = False
+                I.ob('IT-TRANSFER', fr, inst.loc, "next: Some(i) => pos' = i + max(needle.len(), 1)", ok2,
+                     '' if ok2 else f"pos' = {s.nf(npos.e)}, i = {s.nf(x.e)}, needle.len() = {s.nf(n)}")
+        else:
+            npos = it.fields[2]
+            ovar, oval = opos
+            if not (isinstance(npos, AdtV) and npos.variant is not None):
+                I.ob('IT-TRANSFER', fr, inst.loc, 'next (rev): pos tracked at exit', False, '')
+                continue
+            same = npos.variant == ovar and (ovar == 0 or (isinstance(npos.fields[0], IntV) and s.entails_eq(npos.fields[0].e - oval)))
+            if ret.variant == 0:
+                I.ob('IT-TRANSFER', fr, inst.loc, 'next (rev): None leaves pos unchanged (fused)', same, '' if same else f"pos' = {npos}")
+            else:
+                x = ret.fields[0]
+                if ovar != 1 or not isinstance(x, IntV):
+                    I.ob('IT-TRANSFER', fr, inst.loc, 'next (rev): Some(i) only from a live window', False, f'old pos {opos}, result {ret}')
+                    continue
+                ok1 = s.entails_le(x.e + n - oval)
+                I.ob('IT-TRANSFER', fr, inst.loc, 'next (rev): Some(i) => i + needle.len() <= pos', ok1, '' if ok1 else f"i = {s.nf(x.e)}, pos = {s.nf(oval)}")
+                if s.entails_le(C(1) - n) or s.entails_le(x.e + 1 - oval):
+                    # a non-empty needle (or any match strictly inside): the window shrinks to end at the match start
+                    ok2 = npos.variant == 1 and isinstance(npos.fields[0], IntV) and s.entails_eq(npos.fields[0].e - x.e)
+                    lab = "next (rev): Some(i), i < pos => pos' = Some(i)"
+                elif s.entails_eq(x.e - oval):
+                    # empty match at the very end of the window: step one byte left, or finish at 0
+                    if s.entails_eq(oval):
+                        ok2 = npos.variant == 0
+                    elif s.entails_le(C(1) - oval):
+                        ok2 = npos.variant == 1 and isinstance(npos.fields[0], IntV) and s.entails_eq(npos.fields[0].e - (oval - 1))
+                    else:
+                        ok2 = False
+                    lab = "next (rev): Some(i), i == pos (empty needle) => pos' = pos.checked_sub(1)"
+                else:
+                    ok2, lab = False, 'next (rev): case i < pos / i == pos determined'
+                I.ob('IT-TRANSFER', fr, inst.loc, lab, ok2, '' if ok2 else f"pos' = {npos}, i = {s.nf(x.e)}, pos = {s.nf(oval)}")
+    I.ob('IT-TRANSFER', fr, inst.loc, f'{meth}: at least one path examined', n_checked > 0, f'{n_checked} path(s)')
